@@ -742,7 +742,7 @@ def config_pairs(run):
 
 def alias_check(run):
     """C14: isolation of stored values from caller memory, on random deep object shapes"""
-    n = 80 if run.tier == "quick" else 2500
+    n = 80 if run.tier == "quick" else 1200
     try:
         r = subprocess.run([run.harness, "-alias", "-n", str(n), "-seed", str(run.seed), "-root", os.path.join(run.scratch, "alias"), "-out", "x"],
                            stdout=subprocess.PIPE, stderr=subprocess.PIPE, text=True, timeout=1200)
